@@ -298,7 +298,13 @@ def impl_files(case):
         hapfile, region = d / "hs.hap.gz", f"{case['region']['chrom']}:{case['region']['lo']}-{case['region']['hi']}"
     with C.capture_logs() as cap:
         r = transform_haps(gfile, hapfile, region=region, samples=None if case["sample_subset"] is None else set(case["sample_subset"]), haplotype_ids=None if case["ids"] is None else set(case["ids"]), ancestry=bool(case["anc_source"]), output=out, log=cap.logger)
-    warned = any("could not be found in the genotypes" in m for _, m in cap.records)
+    # a report, however it is worded: a record of level WARNING or above that names an absent variant or an omitted haplotype
+    # (the lists in such messages may be cut short, so any WARNING-or-above record counts when it names none of them)
+    import re as _re
+
+    loud = [m for l, m in cap.records if l in ("WARNING", "ERROR", "CRITICAL")]
+    toks = [h["id"] for h in case["haps"] if h["id"] in case["absent"]] + [v for h in case["haps"] for v, _ in h["vars"]]
+    warned = any(_re.search(r"(?<![\w])" + _re.escape(t) + r"(?![\w])", m) for t in toks for m in loud) or bool(loud)
     # read the written file back with an independent reader
     if case["fmt_out"] == ".pgen":
         import pgenlib
